@@ -1,8 +1,11 @@
 import HexVerif.Xcmp.AstPrint
+import HexVerif.Properties.C09
 import Drivers.Util
 /-!
   Line-protocol driver for the model of xcmp's front end (C09, C11).
     lex <srchex>    -> `tok <hex of the text xcmp --tokens prints>` | `diag <Class> line_L:C`
+    run <srchex>    -> the whole compiler model `Xcmp.runSrc` (C09_pipeline_partial): `image <hex of the file>` |
+                       `front` | `compile <exception class>` | `anomaly <what>`
     parse <srchex>  -> `tree <hex of the undecorated --tree text> nl=<0|1>` | `diag <Class> line_L:C` | `fuel`
 -/
 open Hex Hex.Xcmp Hex.Drv
@@ -68,6 +71,12 @@ def handle (line : String) : String :=
         | .charConst => "CharConstError" | .token => "TokenError" | .unexpectedToken => "UnexpectedTokenError"
         | .expectedName => "ExpectedNameError" | .parserToken => "ParserTokenError"
       s!"diag {cls} {locStr d.loc}"
+  | ["run", src] =>
+    match Xcmp.runSrc (unhex src) with
+    | .image bs => "image " ++ tohex bs
+    | .frontDiag _ => "front"
+    | .compileDiag d => "compile " ++ d.className
+    | .anomaly w => "anomaly " ++ w.replace " " "_"
   | _ => "bad-op"
 
 def main : IO Unit := do
